@@ -156,11 +156,11 @@ static void continuation(void)
 	if (added[W0]) xdel(W0);
 	one_loop();
 	if (base->th_notify_fn) { if (base->th_notify_fn(base) != 0) FAIL(K("notify-failed"), "th_notify_fn failed"); }
-	else FAIL("harness:not-notifiable", "base has no wake-up function");
+	else FAIL(K("wakeup-lost"), "the base has no wake-up function any more (%s)", bk_in_child ? "child after event_reinit" : "parent");
 	one_loop();
 	/* left behind on purpose: must stay inside this process */
 	raise(SIGUSR1);
-	base->th_notify_fn(base);
+	if (base->th_notify_fn) base->th_notify_fn(base);
 }
 
 static void teardown(void)
